@@ -317,6 +317,26 @@ def main():
     except BaseException as ex:  # noqa
         bad("YamlFrontEnd:exception", dict(exc=repr(ex)[:200]))
 
+    # ---- 2e. the multipliers at world scale (no country row): the caller's dictionary is left as it was, twice in a row
+    for key_, tgt_ in (("CROP_PRODUCTION_MULTIPLIER", "RATIO_CROPS_YEAR1"), ("GRASSES_PRODUCTION_MULTIPLIER", "RATIO_GRASSES_YEAR1")):
+        rep["override_cases"] += 1
+        try:
+            with contextlib.redirect_stdout(io.StringIO()):
+                c_b, _, _ = sr.set_depending_on_option(copy.deepcopy(BASE_GLOBAL))
+            opts = dict(copy.deepcopy(BASE_GLOBAL), **{key_: 0.5})
+            snapshot = copy.deepcopy(opts)
+            got = []
+            for _ in range(2):
+                with contextlib.redirect_stdout(io.StringIO()):
+                    c_, _, _ = sr.set_depending_on_option(opts)
+                got.append(c_[tgt_])
+            if opts != snapshot:
+                bad("NoCallerMutation:override:global:%s" % key_, dict(missing=sorted(set(snapshot) - set(opts))))
+            if any(abs(g_ - 0.5 * c_b[tgt_]) > 1e-12 for g_ in got):
+                bad("OverrideTakesEffect:global:%s" % key_, dict(got=got, base=c_b[tgt_]))
+        except BaseException as ex:  # noqa
+            bad("Override:exception:global:%s" % key_, dict(exc=repr(ex)[:120]))
+
     # ---- 3. numeric overrides
     from harness_presets_snapshot import BASE_COUNTRY2
     stock_csv = pd.read_csv("data/no_food_trade/animal_feed_data/FAOSTAT_head_and_slaughter.csv", index_col="iso3")
